@@ -206,28 +206,25 @@ IdleNext == UNCHANGED vars
 (* ---- B3: generation and verdict ------------------------------------------------------------------------- *)
 FullLen == atoi(IOEnv.NU_FULL)
 CoreLen == atoi(IOEnv.NU_CORE)
-Inputs  == Words(Tokens, FullLen) \cup Words(Core, CoreLen)
+\* TLC refuses sets of more than 1,000,000 elements, so the universe is written in two parts, and at length 5
+\* (16^5 > 10^6) the token "q" is left out of the full alphabet: "?" and "#" end the authority for both parsers
+\* alike and "q" stays in every shorter word.
+FullWords == Words(Tokens, IF FullLen < 4 THEN FullLen ELSE 4)
+             \cup UNION { [1 .. k -> Tokens \ {"q"}] : k \in 5 .. FullLen }
+CoreWords == Words(Core, CoreLen)
+Inputs    == IF IOEnv.NU_PART = "full" THEN FullWords ELSE CoreWords \ FullWords
 Gen == ndJsonSerialize(IOEnv.NU_INPUTS, SetToSeq({ [w |-> x] : x \in Inputs }))
 
 \* a case: [w |-> word, acc |-> <<accepted? per concretisation>>, canon |-> accepted? for the canonical spelling]
 Cases == ndJsonDeserialize(IOEnv.NU_CASES)
 IsWord(x) == \A i \in 1 .. Len(x) : x[i] \in Tokens
 AnyAcc(c) == \E i \in 1 .. Len(c.acc) : c.acc[i]
-\* where the browser lands, computed once per case (TLCEval forces the function to be tabulated)
-LandsOf == TLCEval([i \in 1 .. Len(Cases) |-> IF IsWord(Cases[i].w) THEN Lands(Cases[i].w) ELSE "not-a-word"])
-Bad   == { i \in 1 .. Len(Cases) : LandsOf[i] = "not-a-word" \/ (AnyAcc(Cases[i]) /\ LandsOf[i] \notin Allowed) }
-\* where the model of the validator and the real validator disagree on the canonical spelling (reported, not a verdict)
-Drift == { i \in 1 .. Len(Cases) : IsWord(Cases[i].w) /\ Cases[i].canon # PyAccepts(Cases[i].w) }
-Count(P(_)) == Cardinality({ i \in 1 .. Len(Cases) : P(i) })
-Verdict == JsonSerialize(IOEnv.NU_VERDICT,
-             [n |-> Len(Cases),
-              accepted |-> Count(LAMBDA i : AnyAcc(Cases[i])),
-              \* vacuity: the antecedent and every kind of landing occur among the judged cases, and the weaker
-              \* validator (WeakAccepts) would have been caught on them
-              lands |-> [r \in {"good", "self", "other", "none"} |-> Count(LAMBDA i : LandsOf[i] = r)],
-              accepted_good |-> Count(LAMBDA i : AnyAcc(Cases[i]) /\ LandsOf[i] = "good"),
-              accepted_none |-> Count(LAMBDA i : AnyAcc(Cases[i]) /\ LandsOf[i] = "none"),
-              weak_unsafe |-> Count(LAMBDA i : LandsOf[i] = "other" /\ WeakAccepts(Cases[i].w)),
-              bad |-> SetToSeq({ [i |-> i, lands |-> LandsOf[i]] : i \in Bad }),
-              drift |-> SetToSeq(Drift)])
+\* One judgement per case, each evaluated exactly once and written as one ndjson line:
+\*   lands  where the browser goes,  ok  the property on the real answers (accepted => not another host),
+\*   model  what the model of the validator says for the canonical spelling (drift = it differs from the real answer),
+\*   weak   whether the weaker hostname-based validator would accept (vacuity: it must be caught somewhere)
+Judge(c) == IF ~IsWord(c.w) THEN [lands |-> "not-a-word", ok |-> FALSE, model |-> FALSE, weak |-> FALSE]
+            ELSE LET l == Lands(c.w) IN
+                 [lands |-> l, ok |-> (AnyAcc(c) => l \in Allowed), model |-> PyAccepts(c.w), weak |-> WeakAccepts(c.w)]
+Verdict == ndJsonSerialize(IOEnv.NU_VERDICT, [i \in 1 .. Len(Cases) |-> Judge(Cases[i])])
 =============================================================================
